@@ -342,8 +342,27 @@ fn c15_lookup() -> R {
     } else { ensure!(r.is_err(), "typed extraction of an elided object returned a value", ""); }
     let r = e.extract_optional_object_for_predicate::<String>(query.clone());
     if want.is_empty() { ensure!(matches!(r, Ok(None)), "optional extraction without a match must be Ok(None)", ""); }
-    let r = e.extract_object_for_predicate_with_default::<String>(query.clone(), "dflt".to_string());
-    if want.is_empty() { ensure!(r.as_ref().ok() == Some(&"dflt".to_string()), "default not returned when there is no match", ""); }
+    let rd = e.extract_object_for_predicate_with_default::<String>(query.clone(), "dflt".to_string());
+    if want.is_empty() { ensure!(rd.as_ref().ok() == Some(&"dflt".to_string()), "default not returned when there is no match", ""); }
+    if want.len() > 1 { ensure!(r.is_err() && rd.is_err(), "optional / defaulted extraction with several matches returned a value", ""); }
+    if want.len() == 1 {
+        // a present object is returned as stored or reported as an error: never 'absent', never the caller's default
+        let i = (0..nas).find(|i| preds[*i] == Some(q)).unwrap();
+        let obj_elided = matches!(&specs[i], Spec::Assert(_, o) if o.is_obscured());
+        let decorated = matches!(&specs[i], Spec::Node(..));
+        if obj_elided {
+            ensure!(r.is_err(), "optional extraction of a present but obscured object did not report an error", "{:?}", r.as_ref().ok());
+            ensure!(rd.is_err(), "defaulted extraction of a present but obscured object did not report an error", "{:?}", rd.as_ref().ok());
+        } else if !decorated {
+            ensure!(r.as_ref().ok() == Some(&Some(leaf_text(60 + i as u32))), "optional extraction did not return the stored value", "{:?}", r.as_ref().ok());
+            ensure!(rd.as_ref().ok() == Some(&leaf_text(60 + i as u32)), "defaulted extraction did not return the stored value", "{:?}", rd.as_ref().ok());
+        } else {
+            if let Ok(x) = &r { ensure!(*x == Some(leaf_text(60 + i as u32)), "optional extraction returned another value", "{:?}", x); }
+            if let Ok(x) = &rd { ensure!(*x == leaf_text(60 + i as u32), "defaulted extraction returned another value", "{:?}", x); }
+        }
+        ensure!(e.extract_optional_object_for_predicate::<u64>(query.clone()).is_err(), "optional extraction as another type did not report an error", "");
+        ensure!(e.extract_object_for_predicate_with_default::<u64>(query.clone(), 5).is_err(), "defaulted extraction as another type did not report an error", "");
+    }
     Ok(())
 }
 
